@@ -310,6 +310,16 @@ def run(item, ctx, tier, seed):
                 if ok and (list(cm.classes) != order or not _eqf(cm.matrix, mp)):
                     ctx.fail("class-reordering", dict(case, form=form, order=order), observed=[list(cm.classes), cm.matrix],
                              expected=[order, [[float(x) for x in r] for r in mp]])
+        if base is not None and i % 5 == 0:
+            # the caller keeps updating its own array: per-class metrics must follow the matrix as it is now
+            arr_ = np.array(_mat_from_index((i * 7 + 3) % (len(ents) ** (N * N)), N, ents), dtype=float)
+            okc, cmx = guarded(ctx, "construct-ndarray", case, lambda: ConfusionMatrix(matrix=arr_, classes=names))
+            if okc:
+                for nm_ in ("tpr", "fn", "ppv", "one_vs_all"):
+                    guarded(ctx, "warm-up", case, lambda: getattr(cmx, nm_)())
+                arr_[...] = np.array(m, dtype=float)
+                if np.array_equal(np.asarray(cmx.matrix, dtype=float), arr_):  # the object shares the caller's memory
+                    check_cm_object(ctx, dict(case, history="queried, then the caller's array was updated in place"), cmx, mF, names)
         if base is not None:
             check_cm_object(ctx, case, base, mF, names)
             ctx.outcome(("mat", N, base.matrix.tobytes()))
